@@ -2,7 +2,7 @@
    ([+-]P[nW][nD][T[nH][nM][n[(.|,)f]S]], ChronoSpec.df_render / df_wf) To(string) -> duration returns the count of
    the denoted duration (fraction rounded half to even) when it is representable, out_of_range otherwise. *)
 From BS Require Import Base ChronoSpec ChronoModel ChronoArith ChronoDecimal ChronoSafe ChronoSafeAdd ChronoText ChronoTp
-  ChronoTpParse ChronoTpRt ChronoDur ChronoDurPrint ChronoDurParse ChronoClassify ChronoClassify2.
+  ChronoTpParse ChronoTpRt ChronoDur ChronoDurPrint ChronoDurParse ChronoClassify ChronoClassify2 ChronoReject.
 From Coq Require Import ZifyBool ZifyN ZifyNat.
 Local Open Scope Z_scope.
 Ltac Zify.zify_post_hook ::= Z.to_euclidean_division_equations.
@@ -119,6 +119,37 @@ Proof.
   - apply Hstep; [right; reflexivity | apply fits_U64; lia].
 Qed.
 
+(* a fraction as the parser accepts it: non-empty, the value fits uint32, at most nine digits unless all zero *)
+Definition flen_ok (fs : list N) : Prop := fs <> [] /\ lfrac_ok fs.
+
+Lemma flen_of_len fs : all_digits fs = true -> (1 <= length fs <= 9)%nat -> flen_ok fs.
+Proof.
+  intros Hd Hl. pose proof (dec_value_bound fs Hd) as Hb.
+  assert (p10 (length fs) <= p10 9) by (apply p10_mono; lia). change (p10 9) with 1000000000 in *.
+  split; [destruct fs; [cbn [length] in Hl; lia | discriminate]|].
+  split; [apply fits_U32; lia | right; lia].
+Qed.
+
+Lemma fns_range fs : all_digits fs = true -> flen_ok fs -> 0 <= dec_value fs * 10 ^ (9 - Z.of_nat (length fs)) <= 999999999.
+Proof.
+  intros Hd (Hne & _ & [H0|Hl]); [rewrite H0; lia|].
+  pose proof (dec_value_bound fs Hd) as Hb.
+  replace (10 ^ (9 - Z.of_nat (length fs))) with (p10 (9 - length fs)) by (unfold p10; f_equal; lia).
+  assert (p10 (length fs) * p10 (9 - length fs) = 1000000000).
+  { rewrite <- p10_add. replace (length fs + (9 - length fs))%nat with 9%nat by lia. reflexivity. }
+  pose proof (p10_pos (9 - length fs)). nia.
+Qed.
+
+Lemma psf_gen fs rest : all_digits fs = true -> no_digit_head rest -> flen_ok fs ->
+  parse_second_fractions (fs ++ rest) = Some (dec_value fs * 10 ^ (9 - Z.of_nat (length fs)), rest).
+Proof.
+  intros Hd Hn (Hne & Hf & Hl).
+  destruct (Nat.le_gt_cases (length fs) 9) as [Hle|Hgt].
+  - apply fraction_exact; try assumption. destruct fs; [congruence | cbn [length] in *; lia].
+  - destruct Hl as [H0|Hl]; [|lia]. unfold parse_second_fractions.
+    rewrite from_chars_numeral by assumption. rewrite Hf, H0. reflexivity.
+Qed.
+
 Lemma rhe_bounds_signed P neg fns : 0 <= fns <= 999999999 ->
   let r := round_half_even (signed neg fns) (tick_ns P) in
   - pden P <= r <= pden P /\ (neg = true -> r <= 0) /\ (neg = false -> 0 <= r) /\ (1 < pnum P -> r = 0).
@@ -130,7 +161,7 @@ Qed.
 (* the seconds component with a fraction *)
 Lemma pnp_frac_spec P R ds sep fs rest neg dur :
   rep2 R -> all_digits ds = true -> ds <> [] -> mag_ok neg (dec_value ds) = true ->
-  (sep = c_dot \/ sep = c_comma) -> all_digits fs = true -> (1 <= length fs <= 9)%nat ->
+  (sep = c_dot \/ sep = c_comma) -> all_digits fs = true -> flen_ok fs ->
   fits R dur = true ->
   parse_next_part (pty P R) (ds ++ sep :: fs ++ c_S :: rest) false neg dur =
   (d1 <- cadd R dur (round_half_even (signed neg (dec_value fs * 10 ^ (9 - Z.of_nat (length fs)))) (tick_ns P)) ;;
@@ -141,17 +172,14 @@ Proof.
   pose proof (dec_value_bound fs Hfd) as Hfb.
   set (fns := dec_value fs * 10 ^ (9 - Z.of_nat (length fs))).
   assert (Hfns : 0 <= fns <= 999999999).
-  { unfold fns. replace (10 ^ (9 - Z.of_nat (length fs))) with (p10 (9 - length fs)) by (unfold p10; f_equal; lia).
-    assert (p10 (length fs) * p10 (9 - length fs) = 1000000000).
-    { rewrite <- p10_add. replace (length fs + (9 - length fs))%nat with 9%nat by lia. reflexivity. }
-    pose proof (p10_pos (9 - length fs)). nia. }
+  { unfold fns. apply fns_range; assumption. }
   unfold parse_next_part.
   assert (Hnd : no_digit_head (sep :: fs ++ c_S :: rest)) by (cbn; destruct Hsep as [-> | ->]; reflexivity).
   destruct (hd_digit ds (sep :: fs ++ c_S :: rest) Hdig Hne) as (c0 & t0 & E0 & Hc0). rewrite E0, Hc0, <- E0.
   rewrite from_chars_numeral; [| exact Hdig | exact Hne | exact Hnd].
   replace (fits U64 (dec_value ds)) with true by (symmetry; apply fits_U64; unfold mag_ok in Hmag; destruct neg; lia).
   replace ((sep =? c_dot)%N || (sep =? c_comma)%N) with true by (destruct Hsep as [-> | ->]; reflexivity).
-  rewrite (fraction_exact fs (c_S :: rest)); [| exact Hfd | reflexivity | exact Hfl].
+  rewrite (psf_gen fs (c_S :: rest)); [| exact Hfd | reflexivity | exact Hfl].
   replace ((c_S =? c_S)%N) with true by reflexivity. rewrite bind_ok. cbn [fst snd]. fold fns.
   assert (Esns : (if neg then arith I64 (- fns) else Ok fns) = Ok (signed neg fns)).
   { unfold signed. destruct neg; [rewrite arith_fits by (apply fits_I64; lia)|]; reflexivity. }
@@ -196,7 +224,7 @@ Qed.
 
 Lemma pnp_frac_oor P R ds sep fs rest neg dur :
   rep2 R -> all_digits ds = true -> ds <> [] -> mag_ok neg (dec_value ds) = false ->
-  (sep = c_dot \/ sep = c_comma) -> all_digits fs = true -> (1 <= length fs <= 9)%nat ->
+  (sep = c_dot \/ sep = c_comma) -> all_digits fs = true -> flen_ok fs ->
   fits R dur = true ->
   parse_next_part (pty P R) (ds ++ sep :: fs ++ c_S :: rest) false neg dur = Err OutOfRange.
 Proof.
@@ -204,17 +232,14 @@ Proof.
   pose proof (dec_value_bound fs Hfd) as Hfb.
   set (fns := dec_value fs * 10 ^ (9 - Z.of_nat (length fs))).
   assert (Hfns : 0 <= fns <= 999999999).
-  { unfold fns. replace (10 ^ (9 - Z.of_nat (length fs))) with (p10 (9 - length fs)) by (unfold p10; f_equal; lia).
-    assert (p10 (length fs) * p10 (9 - length fs) = 1000000000).
-    { rewrite <- p10_add. replace (length fs + (9 - length fs))%nat with 9%nat by lia. reflexivity. }
-    pose proof (p10_pos (9 - length fs)). nia. }
+  { unfold fns. apply fns_range; assumption. }
   unfold parse_next_part.
   assert (Hnd : no_digit_head (sep :: fs ++ c_S :: rest)) by (cbn; destruct Hsep as [-> | ->]; reflexivity).
   destruct (hd_digit ds (sep :: fs ++ c_S :: rest) Hdig Hne) as (c0 & t0 & E0 & Hc0). rewrite E0, Hc0, <- E0.
   rewrite from_chars_numeral; [| exact Hdig | exact Hne | exact Hnd].
   destruct (fits U64 (dec_value ds)) eqn:Ef; [|reflexivity].
   replace ((sep =? c_dot)%N || (sep =? c_comma)%N) with true by (destruct Hsep as [-> | ->]; reflexivity).
-  rewrite (fraction_exact fs (c_S :: rest)); [| exact Hfd | reflexivity | exact Hfl].
+  rewrite (psf_gen fs (c_S :: rest)); [| exact Hfd | reflexivity | exact Hfl].
   replace ((c_S =? c_S)%N) with true by reflexivity. rewrite bind_ok. cbn [fst snd]. fold fns.
   apply fits_U64 in Ef. unfold mag_ok in Hmag. destruct neg; [|lia].
   rewrite arith_fits by (apply fits_I64; lia). rewrite bind_ok.
@@ -240,7 +265,7 @@ Definition item_ok (isDate : bool) (it : item) : Prop :=
   match it with
   | Plain ds sym X => letter_of sym isDate X /\ all_digits ds = true /\ ds <> []
   | Frac ds sep fs => isDate = false /\ all_digits ds = true /\ ds <> [] /\ (sep = c_dot \/ sep = c_comma) /\
-                      all_digits fs = true /\ (1 <= length fs <= 9)%nat
+                      all_digits fs = true /\ flen_ok fs
   end.
 
 Definition item_v (it : item) : Z := match it with Plain ds _ _ => dec_value ds | Frac ds _ _ => dec_value ds end.
@@ -264,12 +289,8 @@ Proof.
   destruct it as [ds sym X | ds sep fs]; cbn [item_ok item_v item_x item_fns].
   - intros (Hs & Hd & _). pose proof (dec_value_bound ds Hd). destruct (letter_facts _ _ _ Hs) as (HX & _).
     repeat split; try lia. exact HX.
-  - intros (_ & Hd & _ & _ & Hfd & Hfl). pose proof (dec_value_bound ds Hd). pose proof (dec_value_bound fs Hfd) as Hfb.
-    assert (E : 10 ^ (9 - Z.of_nat (length fs)) = p10 (9 - length fs)) by (unfold p10; f_equal; lia).
-    assert (p10 (length fs) * p10 (9 - length fs) = 1000000000).
-    { rewrite <- p10_add. replace (length fs + (9 - length fs))%nat with 9%nat by lia. reflexivity. }
-    pose proof (p10_pos (9 - length fs)). rewrite E.
-    repeat split; try lia; try nia. unfold unit5. auto 10.
+  - intros (_ & Hd & _ & _ & Hfd & Hfl). pose proof (dec_value_bound ds Hd). pose proof (fns_range fs Hfd Hfl).
+    repeat split; try lia. unfold unit5. auto 10.
 Qed.
 
 Lemma pnp_item P R it rest isDate neg dur : rep2 R -> item_ok isDate it -> fits R dur = true ->
@@ -617,7 +638,7 @@ Proof.
     + apply oitem_ok; [assumption|]. right. right. left. auto.
     + apply oitem_ok; [assumption|]. right. right. right. left. auto.
     + unfold sec_items. destruct (df_ss f) as [[ds [[sep fs]|]]|]; [| |constructor].
-      * destruct Hs as (H1 & H2 & H3 & H4 & H5). constructor; [|constructor]. cbn [item_ok]. auto 10.
+      * destruct Hs as (H1 & H2 & H3 & H4 & H5). pose proof (flen_of_len fs H4 H5). constructor; [|constructor]. cbn [item_ok]. auto 10.
       * destruct Hs as (H1 & H2 & _). constructor; [|constructor]. cbn [item_ok]. repeat split; auto.
         right. right. right. right. auto.
 Qed.
